@@ -2,7 +2,7 @@
    transcription, so these theorems are thin; the weight of this property is on the correspondence with the
    binary (DESIGN 7, C15). *)
 From Coq Require Import NArith ZArith List Bool String Lia ZifyN ZifyBool.
-From KT Require Import Gen.Generated Gen.GeneratedFacts Model.Show Model.Ops Model.Rows Model.Pipeline Model.Cli Proof.CliProof.
+From KT Require Import Gen.Generated Gen.FactsBase Model.Show Model.Ops Model.Rows Model.Pipeline Model.Cli Proof.CliProof.
 Import ListNotations.
 Open Scope N_scope.
 
